@@ -371,11 +371,20 @@ def _pairing(repo, col, R="R-C08-pairing"):
             return "assign"
         return "old-first" if pos[0] == 0 else "new-first"
 
+    def _gkey(g):
+        """key of a guard with its polarity made explicit: `x not in L` / `x is not y` / not(c) are "not:" + key of the positive test"""
+        flip = {"not in": "in", "is not": "is"}
+        if g.op == "cmp" and g.name in flip:
+            return "not:" + T("cmp", flip[g.name], list(g.args), dict(g.kw)).key()
+        if g.op == "not" and g.args:
+            return "not:" + g.args[0].key()
+        return g.key()
+
     def check_pairs(fi, stores, names, old_pred):
         """stores: list of (dict name, store).  Every path stores both, with the same position of the old rows."""
         per = {nm: [] for nm in names}
         for nm, s_ in stores:
-            for g_, v_ in alts(_canon(s_.value), tuple(x.key() for x in s_.guards)):
+            for g_, v_ in alts(_canon(s_.value), tuple(_gkey(x) for x in s_.guards)):
                 per[nm].append((set(g_), v_, s_))
 
         def consistent(g1, g2):
